@@ -190,7 +190,7 @@ class C14(Check):
             'fractional, optionally inside until(time+d) and followed by a second ticker, next to a bounded spinner; '
             '10% arbitrary float periods (IntervalExceeded-iff clause only). non-trivial = period 0, or a body equal '
             'to / longer than the period, or a tick on date 0 from a negative clock, or inside until; distinct by sha1.')
-    budgets = {'quick': dict(examples=3000, procs=4), 'thorough': dict(examples=60000, procs=16)}
+    budgets = {'quick': dict(examples=3000, procs=4), 'thorough': dict(examples=400000, procs=16)}
     level_text = ('Reference model of the tick grid: every tick time, yielded value, IntervalExceeded point and end of '
                   'every generated ticker must equal the model; every step is logged in a later activation than the '
                   'step before it and a runnable spinner runs in between (also for period 0).')
